@@ -716,6 +716,7 @@ func TestVerifC11(t *testing.T) {
 	var pool [][]byte // inputs that parse (strictly or via lax) as exactly one certificate: pieces for the concatenation law
 	var poolInner []string
 	var poolLax []bool
+	nLaxPool := 0
 	oneTBS := func(tbs []byte, class string) {
 		out.Count("class:tbs-" + class)
 		to := c11Call(func() (interface{}, error) { return ParseTBSCertificate(tbs) })
@@ -785,7 +786,10 @@ func TestVerifC11(t *testing.T) {
 			if len(parsed.Raw) != len(der) {
 				out.Fail("raw-slice Raw "+hx, "Raw is not the whole input")
 			}
-			if inner != "fatal" && ok && len(rest) == 0 && (laxed || r.Intn(3) == 0) && len(pool) < 400 {
+			if inner != "fatal" && ok && len(rest) == 0 && ((laxed && nLaxPool < 200) || (!laxed && r.Intn(3) == 0 && len(pool)-nLaxPool < 400)) {
+				if laxed {
+					nLaxPool++
+				}
 				pool = append(pool, der)
 				poolInner = append(poolInner, inner)
 				poolLax = append(poolLax, laxed)
@@ -870,6 +874,7 @@ func TestVerifC11(t *testing.T) {
 
 	// ---- (c) concatenations
 	nCat := verifkit.N(150, 5000)
+	nF7 := 0
 	for i := 0; i < nCat && len(pool) > 0; i++ {
 		k := 1 + r.Intn(4)
 		var cat []byte
@@ -912,7 +917,12 @@ func TestVerifC11(t *testing.T) {
 		})
 		out.T(fmt.Sprintf("pcs %d %s", k, strings.Join(desc, " ")), got.String())
 		out.Count("class:concatenation")
-		if got.String() != exp.String() {
+		if got.String() != exp.String() && anyLax != "" && nF7 >= 8 {
+			out.Count("diff:concat-lax-piece")
+		} else if got.String() != exp.String() {
+			if anyLax != "" {
+				nF7++
+			}
 			out.Fail(fmt.Sprintf("concat %sk=%d expected=[%s] %s", anyLax, k, exp.String(), verifkit.Hex(cat)), "ParseCertificates on the concatenation gave ("+got.String()+") but ParseCertificate on the pieces gives ("+exp.String()+")")
 		} else {
 			out.Count("mode:concat-agrees")
